@@ -459,8 +459,6 @@ func Run(sc Scenario, seed int64) *Result {
 		s.C.EnableStateTracking()
 		s.C.EnableStateTracking() // a second call is a no-op
 	}
-	in, _ := client.VerifQueueCaps(s.C)
-	_ = in
 	c := s.C
 	c.HandleFunc(client.REGISTER, func(c *client.Conn, l *client.Line) {
 		atomic.AddInt32(&r.reg, 1)
